@@ -2,6 +2,7 @@ import GqlVerif.Base.Json
 import Driver.C16
 import Driver.C05
 import Driver.C06
+import Driver.C08
 open GqlVerif GqlVerif.Driver
 
 /-- dispatch one request; unknown op → `unsupported` -/
@@ -10,6 +11,8 @@ def dispatch (op : String) (args : Json) : Option Json :=
   | "ping" => some (.obj [("pong", .bool true)])
   | "c16.ttl" => some (c16ttl args)
   | "c06.validate" => some (c06validate args)
+  | "c08.validate" => some (c08validate args)
+  | "c08.legacy" => some (c08legacy args)
   | "c05.lex" => some (c05lex args)
   | "c05.limits" => some (c05limits args)
   | _ => none
